@@ -16,6 +16,11 @@
 //   ReadThreads{threads,rounds}       -> {threads: [[{first: observation, distinct: n}...]...]}  thread k reads its list of files
 //        `rounds` times, all threads released together by a spin barrier; per file the first observation and the number of
 //        distinct observations over the rounds (observed at the quiescent point after joining)
+//   ReadRep{nofile,parts:[{doc,n}...]} -> {nofile, parts: [{first: observation, distinct, fd_delta_min, fd_delta_max}...], fd_delta_total}
+//        in a forked child whose soft RLIMIT_NOFILE is lowered to `nofile`: part after part, the file `doc` n times
+//   every single read also reports "fd_delta": open descriptors of the process (entries of /proc/self/fd) after the call minus
+//   before it; bulk actions report "fds": [at the start, at the end] of the child that read the last inputs; ReadThreads
+//   "fds": [before the threads start, after they are joined]
 //   ReadMissing{}                     -> {outcome}   a file name that does not exist
 //   Big{kind,n}                       -> {outcome, bytes, doc? (n <= 16), ctree?}   document built here by the formula of
 //        XmlDocGen!BigDoc; ctree = the returned tree with runs compressed: strings as [[char, count]...], consecutive equal
@@ -38,7 +43,9 @@
 //        pieces, each a token of `tokens` (3 of 4) or one uniformly random byte
 //   Batch{docs,quiet}                 the given documents
 // Outcomes: "ok" | "runtime_error" | "exception:<type>" | "crash" | "timeout" | "not_run".
+#include <dirent.h>
 #include <fcntl.h>
+#include <sys/resource.h>
 #include <signal.h>
 #include <sys/mman.h>
 #include <sys/stat.h>
@@ -124,6 +131,20 @@ static void removeInputFile()
   }
 }
 
+// number of open descriptors of this process (-1 if they cannot be counted, e.g. because none is left for the directory)
+static long countFds()
+{
+  DIR *d = opendir("/proc/self/fd");
+  if (!d) return -1;
+  long n = 0;
+  while (struct dirent *e = readdir(d))
+    if (e->d_name[0] != '.') ++n;
+  closedir(d);
+  return n - 1;  // without the handle used for counting
+}
+static long g_fdDelta = 0;  // of the last call through readOne
+static bool g_countFds = true;  // (off inside the bulk children: they count once at the start and once at the end)
+
 static Json treeOf(const rx::Node &n)
 {
   Json o = Json::object();
@@ -208,19 +229,26 @@ static Json ctreeOf(const rx::Node &n)
 static char readOne(const std::string &bytes, rx::XMLDoc *docOut, std::string *detail)
 {
   const std::string &fn = inputFile(bytes);
+  const long before = g_countFds ? countFds() : 0;
+  char code;
   try {
     rx::XMLDoc d = rx::readXML(fn);
     if (docOut) *docOut = d;
-    return 'o';
+    code = 'o';
   } catch (const std::runtime_error &) {
-    return 'r';
+    code = 'r';
   } catch (const std::exception &e) {
     if (detail) *detail = typeid(e).name();
-    return 'x';
+    code = 'x';
   } catch (...) {
     if (detail) *detail = "unknown";
-    return 'x';
+    code = 'x';
   }
+  if (g_countFds) {
+    const long after = countFds();
+    g_fdDelta = (before < 0 || after < 0) ? -1000000 : after - before;
+  }
+  return code;
 }
 
 // the same through an explicitly named file (threads: one file per thread)
@@ -264,6 +292,8 @@ struct Shared
 {
   volatile long long cur;
   volatile long long beat;
+  volatile long long fdStart;
+  volatile long long fdEnd;
 };
 
 static double nowSecs()
@@ -289,15 +319,21 @@ static Json runBulk(long long n, const std::function<std::string(long long)> &ge
   while (next < n && crashes <= g_maxCrashes) {
     sh->cur = next;
     sh->beat = 0;
+    sh->fdStart = -1;
+    sh->fdEnd = -1;
     fflush(nullptr);
     pid_t pid = fork();
     if (pid < 0) throw std::runtime_error("driver: fork failed");
     if (pid == 0) {
+      g_countFds = false;
+      if (next < n) readOne(gen(next), nullptr, nullptr);  // (opens this child's input file before the descriptors are counted)
+      sh->fdStart = countFds();
       for (long long i = next; i < n; ++i) {
         sh->cur = i;
         sh->beat = sh->beat + 1;
         codes[i] = readOne(gen(i), nullptr, nullptr);
       }
+      sh->fdEnd = countFds();
       sh->cur = n;
       removeInputFile();
       _exit(0);
@@ -353,9 +389,13 @@ static Json runBulk(long long n, const std::function<std::string(long long)> &ge
     }
     inputs.push(e);
   }
+  Json fds = Json::array();
+  fds.push(Json((long long)sh->fdStart));
+  fds.push(Json((long long)sh->fdEnd));
   munmap(mem, bytes);
   Json o = Json::object();
   o.set("count", n);
+  o.set("fds", fds);
   Json h = Json::object();
   for (auto &kv : hist) h.set(kv.first, kv.second);
   o.set("outcomes", h);
@@ -393,7 +433,83 @@ struct World
       std::string detail;
       char c = readOne(str(arg["doc"]), &doc, &detail);
       o.set("outcome", outcomeName(c, detail));
+      o.set("fd_delta", (long long)g_fdDelta);
       if (c == 'o') o.set("tree", treeOf(doc));
+    } else if (a == "ReadRep") {
+      int pfd[2];
+      if (pipe(pfd) != 0) throw std::runtime_error("driver: pipe failed");
+      fflush(nullptr);
+      pid_t pid = fork();
+      if (pid < 0) throw std::runtime_error("driver: fork failed");
+      if (pid == 0) {
+        close(pfd[0]);
+        struct rlimit rl;
+        getrlimit(RLIMIT_NOFILE, &rl);
+        rl.rlim_cur = (rlim_t)arg["nofile"].num();
+        setrlimit(RLIMIT_NOFILE, &rl);
+        getrlimit(RLIMIT_NOFILE, &rl);
+        Json res = Json::object();
+        res.set("nofile", (long long)rl.rlim_cur);
+        readOne("<a/>", nullptr, nullptr);  // (opens this child's input file before the descriptors are counted)
+        const long start = countFds();
+        Json parts = Json::array();
+        for (size_t k = 0; k < arg["parts"].size(); ++k) {
+          const std::string d = str(arg["parts"][k]["doc"]);
+          const long long n = arg["parts"][k]["n"].num();
+          Json first;
+          std::set<std::string> seen;
+          long lo = 0, hi = 0;
+          for (long long i = 0; i < n; ++i) {
+            rx::XMLDoc doc;
+            std::string detail;
+            char c = readOne(d, &doc, &detail);
+            Json ob = Json::object();
+            ob.set("outcome", outcomeName(c, detail));
+            if (c == 'o') ob.set("tree", treeOf(doc));
+            if (i == 0) { first = ob; lo = hi = g_fdDelta; }
+            lo = std::min(lo, g_fdDelta);
+            hi = std::max(hi, g_fdDelta);
+            seen.insert(ob.dump());
+          }
+          Json pr = Json::object();
+          pr.set("first", first);
+          pr.set("reads", n);
+          pr.set("distinct", (long long)seen.size());
+          pr.set("fd_delta_min", (long long)lo);
+          pr.set("fd_delta_max", (long long)hi);
+          parts.push(pr);
+        }
+        const long end = countFds();
+        res.set("parts", parts);
+        res.set("fd_delta_total", (long long)((start < 0 || end < 0) ? -1000000 : end - start));
+        std::string out = res.dump();
+        size_t off = 0;
+        while (off < out.size()) {
+          ssize_t w = write(pfd[1], out.data() + off, out.size() - off);
+          if (w <= 0) _exit(5);
+          off += (size_t)w;
+        }
+        close(pfd[1]);
+        removeInputFile();
+        _exit(0);
+      }
+      close(pfd[1]);
+      std::string in;
+      char buf[65536];
+      for (;;) {
+        ssize_t r = read(pfd[0], buf, sizeof buf);
+        if (r <= 0) break;
+        in.append(buf, (size_t)r);
+      }
+      close(pfd[0]);
+      int status = 0;
+      waitpid(pid, &status, 0);
+      unlink((g_tmpdir + "/xml-" + std::to_string((long)pid) + ".xml").c_str());
+      if (WIFEXITED(status) && WEXITSTATUS(status) == 0 && !in.empty()) o = vj::parse(in);
+      else {
+        o.set("child_status", WIFEXITED(status) ? WEXITSTATUS(status) : -1);
+        o.set("child_signal", WIFSIGNALED(status) ? WTERMSIG(status) : 0);
+      }
     } else if (a == "ReadSeq") {
       Json steps = Json::array();
       for (size_t i = 0; i < arg["docs"].size(); ++i) {
@@ -402,6 +518,7 @@ struct World
         char c = readOne(str(arg["docs"][i]), &doc, &detail);
         Json st = Json::object();
         st.set("outcome", outcomeName(c, detail));
+        st.set("fd_delta", (long long)g_fdDelta);
         if (c == 'o') st.set("tree", treeOf(doc));
         steps.push(st);
       }
@@ -416,6 +533,7 @@ struct World
       std::vector<std::vector<Json>> first(nt);
       std::vector<std::vector<std::set<std::string>>> seen(nt);
       for (size_t t = 0; t < nt; ++t) { first[t].resize(docs[t].size()); seen[t].resize(docs[t].size()); }
+      const long fdBefore = countFds();
       std::atomic<size_t> ready(0);
       std::vector<std::thread> th;
       for (size_t t = 0; t < nt; ++t) {
@@ -445,9 +563,14 @@ struct World
         out.push(per);
       }
       o.set("threads", out);
+      Json fds = Json::array();
+      fds.push(Json((long long)fdBefore));
+      fds.push(Json((long long)countFds()));
+      o.set("fds", fds);
     } else if (a == "ReadMissing") {
       const std::string path = g_tmpdir + "/no-such-file-" + std::to_string((long)getpid()) + ".xml";
       unlink(path.c_str());
+      const long fdBefore = countFds();
       try {
         rx::XMLDoc d = rx::readXML(path);
         o.set("outcome", "ok");
@@ -458,6 +581,7 @@ struct World
       } catch (...) {
         o.set("outcome", "exception:unknown");
       }
+      o.set("fd_delta", (long long)(countFds() - fdBefore));
     } else if (a == "Big") {
       const std::string kind = arg["kind"].str();
       const long long n = arg["n"].num();
@@ -487,6 +611,7 @@ struct World
       std::string detail;
       char c = readOne(s, &doc, &detail);
       o.set("outcome", outcomeName(c, detail));
+      o.set("fd_delta", (long long)g_fdDelta);
       o.set("bytes", (long long)s.size());
       if (n <= 16) o.set("doc", s);
       if (c == 'o') o.set("ctree", ctreeOf(doc));
@@ -505,6 +630,7 @@ struct World
       std::string detail;
       char c = readOne(s, &doc, &detail);
       o.set("outcome", outcomeName(c, detail));
+      o.set("fd_delta", (long long)g_fdDelta);
       o.set("bytes", (long long)s.size());
       if (c == 'o') {
         long long depth = 0;
